@@ -21,6 +21,10 @@ type C20Op struct {
 	How int `json:"how,omitempty"`
 	// bulk: add N further pseudo-random hashes (bulkHash(base..base+N))
 	N int `json:"n,omitempty"`
+	// bulk: FB > 0 forces the first byte of these hashes to FB-1 (hundreds of new entries in one fan-out bucket)
+	FB int `json:"fb,omitempty"`
+	// flush: Fail > 0 makes the Fail-th read inside this Flush fail once; the caller then flushes again
+	Fail int `json:"fail,omitempty"`
 }
 
 func bulkHash(k int) []byte { return meowSum([]byte(fmt.Sprintf("bulk-%d", k))) }
@@ -63,7 +67,7 @@ func hashFromIndex(i int) []byte {
 func init() {
 	Register(&Profile{
 		ID: "C20", Prop: "C20",
-		Rule: "sequences of Add/Flush/Has/Len/reopen (<=200 steps) over a 65-hash space (first bytes 00,01,7f,fe,ff x 13 tails) x batch size 1..8/default, on a simulated file (thorough: also a real temp file); non-trivial = >=2 flushes with >=1 repeat add and >=1 reopen or >=10 distinct members; distinct by plan hash",
+		Rule: "sequences of Add/Flush/Has/Len/reopen (<=200 steps) over a 65-hash space (first bytes 00,01,7f,fe,ff x 13 tails) x batch size 1..8/default, on a simulated file (thorough: also a real temp file), with 200-690 new hashes sharing one first byte in a single flush, transient read errors in Add/Has (retried) and inside Flush before its first write (flushed again); non-trivial = >=2 flushes with >=1 repeat add and >=1 reopen or >=10 distinct members; distinct by plan hash",
 		Gen: func(seed uint64, tier string) any {
 			r := NewRand(seed)
 			p := C20Plan{Batch: Pick(r, []uint32{1, 2, 3, 4, 8, 0, 0})}
@@ -103,9 +107,28 @@ func init() {
 				}
 				p.Ops = ops
 			}
+			if r.Chance(0.05) {
+				// hundreds of new hashes sharing their first byte arrive in one flush
+				p.Batch = Pick(r, []uint32{0, 4096, 700})
+				var ops []C20Op
+				if r.Chance(0.5) {
+					ops = append(ops, C20Op{Op: "bulk", N: r.Range(1, 600)}, C20Op{Op: "flush"})
+				}
+				for k := r.Range(1, 3); k > 0; k-- {
+					ops = append(ops, C20Op{Op: "bulk", N: Pick(r, []int{255, 256, 257, 300, 511, 512, 513, r.Range(200, 690)}), FB: 1 + Pick(r, []int{0, 1, 0x42, 0x7f, 0xfe, 0xff})})
+					if r.Chance(0.5) {
+						ops = append(ops, C20Op{Op: "add", H: r.Intn(65)})
+					}
+					ops = append(ops, C20Op{Op: Pick(r, []string{"flush", "flush", "reopen"})})
+				}
+				p.Ops = ops
+			}
 			for i := range p.Ops {
 				if p.Ops[i].Op == "reopen" {
 					p.Ops[i].How = r.Intn(3)
+				}
+				if p.Ops[i].Op == "flush" && r.Chance(0.15) {
+					p.Ops[i].Fail = r.Range(1, 10)
 				}
 			}
 			if p.Batch == 0 && r.Chance(0.35) && len(p.Ops) > 3 {
@@ -298,12 +321,15 @@ func execC20(t *testing.T, raw json.RawMessage, res *Result) {
 			_ = bs
 		case "bulk":
 			disarm()
-			if op.N < 0 || op.N > 20000 || bulkNext+op.N > 60000 {
+			if op.N < 0 || op.N > 20000 || bulkNext+op.N > 60000 || op.FB < 0 || op.FB > 256 {
 				res.Invalid("bulk")
 				return
 			}
 			for k := 0; k < op.N; k++ {
 				h := bulkHash(bulkNext)
+				if op.FB > 0 {
+					h[0] = byte(op.FB - 1)
+				}
 				bulkNext++
 				if err := hs.Add(h); err != nil {
 					res.Violate("hashset-error", "op %d Add: %v", i, err)
@@ -313,6 +339,31 @@ func execC20(t *testing.T, raw json.RawMessage, res *Result) {
 			}
 		case "flush":
 			disarm()
+			if op.Fail < 0 || op.Fail > 100000 {
+				res.Invalid("flush fail")
+				return
+			}
+			if op.Fail > 0 && sf != nil {
+				// a read fails inside the flush. While nothing has been written yet (the lookups of the insert
+				// positions) the failed flush has changed nothing, and flushing again must store every pending hash.
+				w0, f0 := sf.Writes, sf.ReadFaults
+				sf.FailReadIn = op.Fail
+				err := loud(func() error { return hs.Flush() })
+				disarm()
+				if err != nil {
+					if sf.ReadFaults == f0 {
+						res.Violate("hashset-error", "op %d Flush: %v", i, err)
+						return
+					}
+					res.fault("read_error_in_flush", 1)
+					if sf.Writes != w0 {
+						// entries were already being moved: the statement promises nothing about this file any more
+						res.probe("flush_failed_after_first_write", 1)
+						return
+					}
+					res.probe("flush_failed_before_first_write", 1)
+				}
+			}
 			if err := hs.Flush(); err != nil {
 				res.Violate("hashset-error", "op %d Flush: %v", i, err)
 				return
